@@ -107,6 +107,9 @@ pub struct Batch {
     pub recheck: (usize, usize),
 }
 
+static VIOLATING_RUNS: AtomicUsize = AtomicUsize::new(0);
+const EARLY_STOP_AFTER: usize = 400;
+
 /// Execute `n` runs on the worker pool. `f(run_index, run_seed)` must be a pure function
 /// of its arguments (and of the code under test).
 pub fn run_batch<F>(prop: &str, seed: u64, n: usize, max_samples: usize, f: F) -> Batch
@@ -120,10 +123,15 @@ where
     let pid = prng::hash_label(0, prop);
     let only = only_run();
     let crumbs = inflight_dir(std::process::id());
+    // violations listed as known findings never count towards the early stop (a different
+    // violation of the same property must still be searched for)
+    let known = KnownFindings::load();
+    let known = &known;
     let _ = std::fs::create_dir_all(&crumbs);
     std::thread::scope(|s| {
         for wk in 0..w {
             let crumb = crumbs.join(format!("w{}", wk));
+            let crumbs_dir = crumbs.clone();
             let next = &next;
             let results = &results;
             let f = &f;
@@ -132,6 +140,13 @@ where
                 if i >= n {
                     let _ = std::fs::remove_file(&crumb);
                     break;
+                }
+                // enough is enough: a failing check need not finish its budget (each further failing
+                // run may cost a stall timer); which runs get skipped depends on timing, but the
+                // batch is failing anyway and every reported violation has its own replay file
+                if VIOLATING_RUNS.load(Ordering::SeqCst) >= EARLY_STOP_AFTER {
+                    results.lock().unwrap()[i] = Some(RunOut { degenerate: true, ..Default::default() });
+                    continue;
                 }
                 if let Some(k) = only {
                     if i != k {
@@ -164,6 +179,18 @@ where
                         o
                     }
                 };
+                if out.violations.iter().any(|v| known.matches(prop, &v.key).is_none()) {
+                    // leave a trace on disk at once: should the batch be stopped by the wall-clock guard
+                    // (a deadlocking change makes every affected scenario wait for its stall timer), the
+                    // supervisor still reports what was found
+                    VIOLATING_RUNS.fetch_add(1, Ordering::SeqCst);
+                    if let Ok(mut f) = std::fs::OpenOptions::new().create(true).append(true).open(crumbs_dir.join("found.jsonl")) {
+                        use std::io::Write;
+                        for v in out.violations.iter().filter(|v| known.matches(prop, &v.key).is_none()).take(4) {
+                            let _ = writeln!(f, "{}", serde_json::json!({"run": i, "key": v.key, "class": v.class, "detail": v.detail, "replay": v.replay}));
+                        }
+                    }
+                }
                 results.lock().unwrap()[i] = Some(out);
             });
         }
